@@ -201,6 +201,8 @@ class PropertyRun:
             for ks in self.cfg.get('kani', []):
                 if ks.get('tier', 'quick') == 'thorough' and self.tier != 'thorough':
                     continue
+                if ks.get('tier') == 'quick-only' and self.tier != 'quick':
+                    continue
                 try:
                     cdir, kunits = kani.prepare_crate(self.pid, ks, os.path.join(GEN, self.pid))
                 except (WeaveError, rules.RuleError, ValueError) as e:
@@ -240,7 +242,8 @@ class PropertyRun:
                     continue
                 if r['verdict_failed'] and r['failed_checks'] and job['units']:
                     # a contract / assertion over code extracted from /repo fails
-                    u = job['units'][0]
+                    cu = [x for x in job['units'] if x['contract_attributes']] or [x for x in job['units'] if x['kind'] == 'fn'] or job['units']
+                    u = cu[-1]
                     for fc in r['failed_checks']:
                         import hashlib
                         chash = hashlib.sha1(fc['description'].encode()).hexdigest()[:6]
@@ -250,7 +253,8 @@ class PropertyRun:
                                                     repo_file=u['file'], repo_line=u['lines'][0],
                                                     rendered=_kani_excerpt(r['out']), unit_raw=u['raw'], unit_sha256=u['sha256'],
                                                     group='kani_' + ks['crate'], checker_cmd=ev['cmd'], identical_to_frozen=None,
-                                                    kani=dict(crate_dir=job['dir'], harness=r['harness'])))
+                                                    kani=dict(crate_dir=job['dir'], harness=r['harness'], extra_args=ks.get('extra_args'),
+                                                              arg_names=ks.get('arg_names'), fixed_args=ks.get('fixed_args', {}))))
                     continue
                 self.undecided.append('kani harness=%s reason=%s' % (r['harness'],
                                       'lemma (no repo code) failed' if r['verdict_failed'] else 'no verdict: ' + r['out'][-400:].replace('\n', ' | ')))
@@ -381,6 +385,7 @@ class PropertyRun:
                 continue
             real_violations.append(v)
         rdir = os.path.join(REPLAY, self.pid)
+        shutil.rmtree(rdir, ignore_errors=True)
         if real_violations:
             os.makedirs(rdir, exist_ok=True)
         for v in real_violations:
@@ -506,6 +511,8 @@ class PropertyRun:
         """hook for the concrete-input search (probe programs against the real crate); filled per property"""
         finder = self.cfg.get('input_search')
         if not finder:
+            return None
+        if str(v.get('group', '')).startswith('kani_') and not v.get('kani'):
             return None
         try:
             from . import probes
